@@ -6,6 +6,8 @@ from pyvc.values import *   # noqa
 from .common import make_registry, install_trace_funcs, register_classes
 from . import whmodels, whcontracts as WC
 
+from .mailbox_ready import CLUSTER_READY
+
 PROP = "C01"
 
 SP = "self._sp.password, self._sp.idSymmetric, self._sp.msg1"
@@ -209,6 +211,6 @@ def tasks():
     """function-level tasks plus the machine-level obligations of this property (mailbox-cluster engine)"""
     import os
     from pyvc.mrun import ClusterTask
-    if os.environ.get("VERIF_NO_CLUSTER"):
+    if not CLUSTER_READY or os.environ.get("VERIF_NO_CLUSTER"):
         return _f_tasks()
     return _f_tasks() + [ClusterTask("mailbox-cluster", "props.mailbox", "engine", select_m, "mailbox_history:search")]
